@@ -1106,7 +1106,7 @@ func RunSeq(seed uint64, sc *SeqCase, gen *OpGen, nops int, stopAtFirst bool) *S
 				break
 			}
 		}
-		if cfg.Executor == "queued" {
+		drainQueued := func() {
 			r.RunQueued(-1, nil)
 			evs := r.Events[s.evStart:]
 			s.evStart = len(r.Events)
@@ -1114,8 +1114,15 @@ func RunSeq(seed uint64, sc *SeqCase, gen *OpGen, nops int, stopAtFirst bool) *S
 			s.opProps, s.opKeys = nil, map[int]bool{}
 			s.matchEvents(&Op{Kind: "runexec"}, evs)
 		}
+		held := sc.SaveLoad != nil && sc.SaveLoad.HoldExec
+		if cfg.Executor == "queued" && !held {
+			drainQueued()
+		}
 		if len(m.viol) == 0 && sc.SaveLoad != nil {
 			s.saveLoad(w, sc)
+		}
+		if cfg.Executor == "queued" && held && len(m.viol) == 0 {
+			drainQueued()
 		}
 		if len(m.viol) == 0 {
 			// final: maintenance, then structural audit and derived views (C04/C05 in sequential form)
